@@ -30,6 +30,11 @@ CHECKS = {
     text='ROUND/ROUNDUP/ROUNDDOWN/TRUNC/INT/MOD/CEILING*/FLOOR*/EVEN/ODD are defined on integer pairs (k, j); TLC checks bracket, fixed-point, tie, MOD-identity and duality laws on every enumerated state (ties and near-ties generated exactly) and each state is executed on excellib and through compiled formulas.',
     note='CEILING/FLOOR sign conventions with negative arguments accept either neighbour; decimal significances (0.1) and magnitudes beyond 1e9 are outside the domain; binary floats only get the magnitude laws',
     ref='§3 C19'),
+ 'C06': dict(
+    technique='EngineIter.tla (iteration tracker, _CycleCell value/previous/wip, pass loop) explored by TLC for acyclic workbooks and exact dyadic circular systems; every transition replayed on real cycles=True models with pass counting and per-pass values from the hooks',
+    text='TLC checks PassBound, HonestStop, AcyclicAgrees and AcyclicTwoPasses over set_value/evaluate histories, build orders and a grid of (iterations, tolerance); the tour executes each transition on the real model: passes counted at inc_iteration_number must not exceed iterations, an early stop requires every cell of the last pass within tolerance, the result must be within q/(1-q) x tolerance of the rationally solved fixed point, acyclic results must equal a non-iterative from-scratch compile, and the projected tracker/cell state must equal the model.',
+    note='circular systems are three dyadic linear systems (incl. a cycle through a range) exact at scale 2^16, histories up to depth 3-4; no-data workbooks only',
+    ref='§3 C06'),
  'C08': dict(
     technique='Trim.tla (Engine + trim_graph written like the code) explored exhaustively by TLC per (inputs, outputs) choice; every transition replayed on the real model, an untrimmed twin and a save/load twin',
     text='TLC checks TrimEquiv (every output evaluation after Trim(I,O) returns Fresh of the untrimmed sheet) over all evaluate/set_value histories before and after the trim for sampled (I,O) choices incl. range inputs and buried inputs; the tour executes every transition on the real ExcelCompiler and compares each output with the untrimmed model under the same assignments, directly and after to_file/from_file (yml, json, pkl), plus the projected state incl. the frozen set.',
